@@ -352,19 +352,23 @@ pub fn push_dust(exps: &mut Vec<Exp>, cw20: bool, depth: usize) {
             acts.push(Act::close(t));
             acts.push(Act::Liq { by: "liq".into(), t: t.into(), v: 0, limit: 0 });
         }
+        acts.push(Act::close("carol"));
+        acts.push(Act::Liq { by: "liq".into(), t: "carol".into(), v: 0, limit: 0 });
         acts.push(Act::blk(15));
         acts.push(Act::blk(1200));
         acts.push(px_at_spot());
-        // seeds: a dust position at 10x made slightly under-margined (price moved ~4.9% against it, TWAP caught up,
+        // seeds: a dust position and an ordinary 10x position made slightly under-margined (price moved ~4% against them, TWAP caught up,
         // oracle at spot), in both directions: its partial-liquidation slice is 0 base units (price 10) / a few units
         // worth less than their fee (price 0.1)
-        let mover = q / 40; // notional moving the price by ~4.9%
+        let mover = q * 3 / 100; // notional moving the price by ~6% (net ~4% after carol's own 1% notional)
         let mut seeds = vec![vec![]];
         for long in [true, false] {
             // (13 at 3.08x: 40 units of notional buy 3 base units worth 30 - the rounding loss eats most of the margin)
             for (m, l) in [(1u128, 10 * D), (3, 10 * D), (13, 3_076_923)] {
                 seeds.push(vec![
+                    // an ordinary 10x position on the same side (carol) becomes partially liquidatable together with the dust
                     Act::Open { t: "alice".into(), v: 0, buy: long, margin: m, lev: l, limit: 0 },
+                    Act::Open { t: "carol".into(), v: 0, buy: long, margin: q / 1000, lev: 10 * D, limit: 0 },
                     Act::Open { t: "bob".into(), v: 0, buy: !long, margin: mover, lev: D, limit: 0 },
                     Act::blk(1200),
                     px_at_spot(),
@@ -375,7 +379,7 @@ pub fn push_dust(exps: &mut Vec<Exp>, cw20: bool, depth: usize) {
         let from_scratch = vec![seeds.remove(0)];
         for (sd, d) in [(from_scratch, depth), (seeds, depth - 1)] {
             let mut e = Exp::new(name, c.clone(), acts.clone(), sd, d);
-            e.traders = T2.to_vec();
+            e.traders = T3.to_vec();
             e.raw = true;
             exps.push(e);
         }
